@@ -101,6 +101,10 @@ muts = {
  # round 5: spelling of the store types (T = verifier/trustpolicy/trustpolicy.go)
  'V01_store_type_spaces_trimmed_but_tsa_listing_exact': (H, '\t\tif trustStoreType != truststore.Type(storeType) {', '\t\tif string(trustStoreType) != strings.TrimSpace(storeType) {', '\n', None, (T, '\t\tif s == string(p) {', '\t\tif strings.TrimSpace(s) == string(p) {')),
  'V02_store_type_case_accepted_by_validation_only': (T, '\t\tif s == string(p) {', '\t\tif strings.EqualFold(s, string(p)) {'),
+ # round 6: the caller's timestamping revocation validator must reach the verifier through every constructor
+ 'W01_timestamping_validator_ignored_next_to_revocation_client': (V, '\tif revocationTimestampingValidator == nil {\n', '\tif revocationTimestampingValidator == nil || verifierOptions.RevocationClient != nil {\n'),
+ 'W02_code_signing_validator_used_for_timestamping': (V, '\trevocationTimestampingValidator := verifierOptions.RevocationTimestampingValidator\n', '\trevocationTimestampingValidator := verifierOptions.RevocationCodeSigningValidator\n'),
+ 'W03_deprecated_constructor_drops_timestamping_validator': (V, '\topts.OCITrustPolicy = ociTrustPolicy\n\topts.PluginManager = pluginManager\n\treturn NewVerifierWithOptions(trustStore, opts)', '\treturn NewVerifierWithOptions(trustStore, VerifierOptions{OCITrustPolicy: ociTrustPolicy, PluginManager: pluginManager, RevocationClient: opts.RevocationClient, RevocationCodeSigningValidator: opts.RevocationCodeSigningValidator})'),
  'B01_expiry_boundary_only(harness-unobservable, tie catches)': (V, '!expiry.IsZero() && !time.Now().Before(expiry)', '!expiry.IsZero() && time.Now().After(expiry)'),
  # behaviour-preserving
  'R01_message_changed': (V, 'return errors.New("no timestamp countersignature was found in the signature envelope")', 'return errors.New("the envelope carries no RFC 3161 countersignature")'),
